@@ -12,7 +12,7 @@ use crate::gen::{Class, GenOpts, Tri};
 use crate::refmodel::{RefOut, Tol};
 use crate::rng::Rng;
 use crate::safe::{self, Out};
-use crate::spec::Rewrite;
+use crate::spec::{Line, Rewrite};
 use crate::tally::Tally;
 use crate::{run_sharded, Ctx, Report};
 use cteepbd::types::{Energy, EnergyPerformance};
@@ -136,6 +136,44 @@ pub fn check_case(ctx: &Ctx, case: &Case, rw: &Rewrite, repeats: usize, with_cli
         w["observed"] = extra;
         w
     };
+    // ---- history: what this thread evaluated just before must not leak into the evaluation (a cache keyed by part of
+    // the inputs, an accumulator left behind by an evaluation that failed half-way). One case in three is preceded, in this
+    // very thread, by (i) the same building with a factor set that differs in one single number and / or (ii) the same
+    // building with a factor set simplified for *another* building, which the library is right to refuse.
+    let hist = crate::spec::fnv(text.as_bytes()) % 3 == 0;
+    if hist {
+        let mut hr = crate::rng::Rng::new(rw.seed ^ 0x5EED);
+        if let Out::Ok(c) = safe::parse_components(&text) {
+            if hr.chance(2, 3) && !fac.wdata.is_empty() {
+                let mut f2 = fac.clone();
+                let i = hr.usize(f2.wdata.len());
+                match hr.below(3) {
+                    0 => f2.wdata[i].ren += 0.125,
+                    1 => f2.wdata[i].nren += 0.125,
+                    _ => f2.wdata[i].co2 += 0.125,
+                }
+                let _ = safe::eval(&c, &f2, case.k, case.area, case.lm);
+                t.count("history.sibling_factor_set_evaluated_first");
+            }
+            if hr.chance(1, 2) {
+                // "another building": a one-line gas building, or this building without anything it produces (the
+                // simplified set then keeps every grid factor but lacks the on-site and export factors, so the refusal comes
+                // in the middle of the evaluation, after some carriers have been balanced)
+                let other_text = if hr.chance(1, 3) {
+                    "0, CONSUMO, CAL, GASNATURAL, 1\n".to_string()
+                } else {
+                    case.spec.lines.iter().filter(|l| !matches!(l, Line::Prod { .. }) && !matches!(l.carrier(), Some("EAMBIENTE") | Some("TERMOSOLAR"))).map(|l| l.render(true)).collect::<Vec<_>>().join("\n") + "\n"
+                };
+                if let Out::Ok(other) = safe::parse_components(&other_text) {
+                    let f3 = fac.clone().strip(&other);
+                    match safe::eval(&c, &f3, case.k, case.area, case.lm) {
+                        Out::Err(..) => t.count("history.refused_evaluation_first"),
+                        _ => t.count("history.foreign_simplified_set_accepted"),
+                    }
+                }
+            }
+        }
+    }
     t.evaluations += 1;
     let (class0, ep0) = run_text(&text, &fac, case);
     if class0.contains("panic") {
